@@ -79,9 +79,18 @@ Section Parse.
     | x :: cs', O => nadd x c :: cs'
     | x :: cs', S p' => x :: add_at cs' p' c
     end.
+  Definition max_power_of (terms : list (T * nat)) : nat :=
+    fold_left (fun m t => Nat.max m (snd t)) terms O.
   Definition dense_coeffs (terms : list (T * nat)) : list T :=
-    let max_power := fold_left (fun m t => Nat.max m (snd t)) terms O in
-    fold_left (fun cs t => add_at cs (snd t) (fst t)) terms (repeat n0 (S max_power)).
+    fold_left (fun cs t => add_at cs (snd t) (fst t)) terms (repeat n0 (S (max_power_of terms))).
+  (* the two places where the Rust code can panic: `max_power + 1` (usize overflow)
+     and `vec![0.0; n]` (capacity overflow above isize::MAX bytes).  Both are kept
+     in the model so that "never panics" is a theorem that needs the exponent cap. *)
+  Definition dense_coeffs_checked (terms : list (T * nat)) : res (list T) :=
+    let m := Z.of_nat (max_power_of terms) in
+    if (2 ^ 64 <=? m + 1)%Z then Panic WOverflow
+    else if (2 ^ 63 - 1 <? (m + 1) * 8)%Z then Panic WAlloc
+    else Ok (dense_coeffs terms).
 
   Definition parse_simple (input : str) : res (spoly T) :=
     let normalized := minus_to_plusminus (strip_ws input) in
@@ -90,7 +99,12 @@ Section Parse.
     else
       let variable := find_pred (u_alphabetic U) normalized in
       match mapM (simple_term variable) parts with
-      | Ok terms => Ok {| s_coefs := dense_coeffs terms; s_var := variable |}
+      | Ok terms =>
+          match dense_coeffs_checked terms with
+          | Ok cs => Ok {| s_coefs := cs; s_var := variable |}
+          | Err e => Err e
+          | Panic w => Panic w
+          end
       | Err e => Err e
       | Panic w => Panic w
       end.
